@@ -6,6 +6,9 @@ use crate::{
 use anyhow::{bail, Context};
 use arrayvec::ArrayVec;
 use nohash_hasher::BuildNoHashHasher;
+#[cfg(daniel729_chess_verif)]
+use crate::verif_shim::uci_prelude::*;
+#[cfg(not(daniel729_chess_verif))]
 use std::{
     collections::HashMap,
     io::stdin,
